@@ -105,6 +105,7 @@ struct Emitter<'a> {
     closed: bool,
     /// the current line holds at least one joinable statement
     has_stmt: bool,
+    cur_in_function: Option<bool>,
     out: Emitted,
 }
 
@@ -321,7 +322,13 @@ impl<'a> Emitter<'a> {
                     format!("{} {}", n, a.join(", "))
                 }
             }
-            StmtKind::ExitProc => unreachable!("emitted by the caller, needs the proc kind"),
+            StmtKind::ExitProc => {
+                if self.cur_in_function == Some(true) {
+                    self.kw("EXIT FUNCTION")
+                } else {
+                    self.kw("EXIT SUB")
+                }
+            }
             StmtKind::OnErrorGoto(l) => {
                 format!("{} {}", self.kw("ON ERROR GOTO"), self.ident(l))
             }
@@ -707,6 +714,7 @@ pub fn emit(sc: &Scenario, layout: &Layout) -> Emitted {
         cur: String::new(),
         closed: false,
         has_stmt: false,
+        cur_in_function: None,
         out: Emitted::default(),
     };
     if uses_subscript(&sc.main) {
@@ -726,7 +734,9 @@ pub fn emit(sc: &Scenario, layout: &Layout) -> Emitted {
             let t = format!("{} {}(5)", e.kw("DIM"), e.ident("AR%"));
             e.line(1, &t);
         }
+        e.cur_in_function = Some(p.is_function);
         e.list(&p.body, 1, Some(p.is_function));
+        e.cur_in_function = None;
         let t = format!("{} {}", e.kw("END"), e.kw(head));
         e.line(0, &t);
     }
